@@ -116,7 +116,8 @@ PROPS = {
         'engines': [{'name': 'fs', 'timeout_quick': 600, 'timeout_thorough': 7200}],
         'trusted_base': ['clock shim: fileset.c compiled with -Dclock_gettime=vp_clock_gettime (driver-controlled monotonic clock, +1 ns per reading)', 'setfile mtimes forced strictly increasing with utimes; filename/reader filter callbacks in ocaml/stubs.c'],
         'assumptions': ['every reading of the monotonic clock is strictly later than the previous one (the code uses the reading as a generation stamp; observation O4)',
-                        'setfile change detection = (inode, mtime in seconds): each rewrite gets a later mtime; setfile lines are distinct',
+                        'setfile change detection = (inode, mtime in seconds): each rewrite gets a later mtime',
+                        'the theorems take the lines of a setfile to be distinct names (NoDup): my_fileset_reload realises that since the repair F12 (b41bbf6) by keeping one entry per path - before it, a path named twice led to a use after free; engine fs writes such setfiles and compares with the model on the distinct lines; two DIFFERENT spellings of one path (a.mtbl and ./a.mtbl) are two names',
                         '"more than the interval has elapsed" is evaluated on whole seconds, as the code and the man page do (observation O5)',
                         'all clauses (T07a safety, T07b view, T07d/e pinning and deferred reload, T07c timing) are proved on the model for every history; engine fs ties the model to the C code'],
         'explanation': 'State-machine model of fileset.c + my_fileset.c over an abstract world (setfile, files, clock). Engine fs runs random and directed histories (setfile rewrites with relative/absolute/missing/not-a-table lines, file creation/deletion, clock advances around the interval, reload, reload_now, iterators opened early and drained late, dups with filters and intervals 0/n/NEVER, destruction in any order) on the real code and the model and compares the set of tables every iterator sees.',
